@@ -94,7 +94,7 @@ def runLazy (d : Desc) (racy : Bool) (ccfg : Cache.Cfg) (rootId : Nat) (cells : 
   match o.1 with
   | .ok _ =>
     let st := preload doc ccfg fuel o.2 (cells.map (·.1))
-    let cfg : Conc.Cfg := ⟨ccfg.objCache, ccfg.stmCache, false⟩
+    let cfg : Conc.Cfg := ⟨ccfg.objCache, ccfg.stmCache, false, false⟩
     let lc : LCfg := ⟨cfg, racy⟩
     let init : Nat → P := fun c => match cells[c]? with
       | some p => lazyInit p.2
